@@ -109,3 +109,23 @@ Proof.
   split; [vm_compute; reflexivity|]. split; [vm_compute; reflexivity|]. split; [vm_compute; reflexivity|].
   eexists. split; [vm_compute; reflexivity|]. split; vm_compute; reflexivity.
 Qed.
+
+(* ---------------------------------------------------------------- a column min_width is re-imposed after the collapse
+   Table(Column(min_width=10), "b", "c", box=None, padding=0) with the row ("a", "b"*12, "c"*12) at W = 24: the collapse
+   levels the three columns to 8 + 8 + 8 like any others, the re-measure clamps the first back up to 10, and the table
+   is 26 cells wide although 24 >= smin = 10 + 1 + 1.  A column with min_width is not "free to wrap" below that width
+   (`col_ok` excludes it); this witness shows the exclusion is necessary. *)
+Definition col_minw_tbl : R :=
+  Tbl (mkTblSpec (Table.mkOpts false true true false false 0 (0, 0, 0, 0) false true false None None) None [] []
+                 [mkColSpec [] [] Wrap.J_LEFT Wrap.OV_ELLIPSIS false None (Some 10) None None;
+                  mkColSpec (lit "b") [] Wrap.J_LEFT Wrap.OV_ELLIPSIS false None None None None;
+                  mkColSpec (lit "c") [] Wrap.J_LEFT Wrap.OV_ELLIPSIS false None None None None] [false])
+      [[lit_t "a"; lit_t "bbbbbbbbbbbb"; lit_t "cccccccccccc"]].
+Theorem column_min_width_refuted :
+  smin col_minw_tbl = 12 /\ wrappable col_minw_tbl = false
+  /\ exists lines, render (cf0 24) col_minw_tbl ro0 24 = Ok lines /\ map line_len lines = [26; 26]
+                   /\ fits_b 24 (map line_text lines) = false.
+Proof.
+  split; [vm_compute; reflexivity|]. split; [vm_compute; reflexivity|].
+  eexists. split; [vm_compute; reflexivity|]. split; vm_compute; reflexivity.
+Qed.
